@@ -279,6 +279,24 @@ def register(w):
                                     "the values come from a plugin's lower(); that they declare the shape of the variable they stand for is the plugins' obligation (C08, not under contract)"}
     w.add_contract(c_bind)
 
+    # ---------------------------------------------------------------- bounded obligations for two listed findings (re-derived on every run; never counted as proved)
+    def bounded_variants(world, c, out):
+        import time
+        from pyvc.run import run_witness
+        t0 = time.time()
+        for oname, target, wn, bound in (("ties_are_rounded_away_from_zero_or_the_call_is_rejected", "jax2onnx.plugins.jax.lax.round:RoundPlugin.lower", "D44", "lax.round on [0.5, 1.5, 2.5, -0.5, -1.5, 0.49, 2.51]"),
+                                         ("a_start_index_past_the_end_is_clamped_or_the_call_is_rejected", "jax2onnx.plugins.jax.lax.dynamic_slice:DynamicSlicePlugin.lower", "D45", "lax.dynamic_slice(a[4,3], (k, 0), (2, 3)) for k in 0, 2, 3, 7")):
+            holds, detail = run_witness(wn, timeout=900)
+            d = {"oid": f"{target}#bounded:{oname}", "kind": "bounded", "status": "discharged" if holds else ("refuted" if holds is False else "unknown"),
+                 "backend": "enumerated", "time": time.time() - t0, "instances": 1, "trivial": 0, "bounded": bound,
+                 "note": f"which variants of a primitive a plugin lowers faithfully is not under contract (only its rejection guards are); {detail}"[:500]}
+            if holds is False:
+                d.update(args={"witness": wn}, replay={"reproduced": True, "detail": detail}, formula="", model=detail)
+            out["obls"].append(d)
+        out["paths"], out["time"] = 1, time.time() - t0
+        return out
+    w.add_contract(Contract("jax2onnx.plugins.jax.lax:<bounded-unsupported-variants>", kind="custom", custom=bounded_variants, props=["C16"], witnesses=["D44", "D45"]))
+
     # ---------------------------------------------------------------- rejection guards (shared with C06)
     def guard_world_hook(ex, what):
         g = ex.frames[0]["contract"].guard if ex.frames and getattr(ex.frames[0].get("contract"), "guard", None) else None
